@@ -70,7 +70,10 @@ Wrappers == { <<>>, <<"lam_id">>, <<"lam_formals">>, <<"with">>, <<"assert">>, <
               <<"call">>, <<"call_rec">>, <<"call_paren_lam">>, <<"lam_formals", "with", "assert">> }
 
 CONSTANTS SeedBodies, SeedLayers, SeedWraps      \* which part of the seed product this model covers
-Seeds == { D(w, l, b) : w \in SeedWraps, l \in SeedLayers, b \in SeedBodies }
+\* file-level comments around the expression: the code keeps them on the target set (before / after trivia)
+WithFileTrivia(d) == [d EXCEPT !.lead = <<"L:header">>, !.trail = <<"L:footer">>]
+PlainSeeds == { D(w, l, b) : w \in SeedWraps, l \in SeedLayers, b \in SeedBodies }
+Seeds == PlainSeeds \cup { WithFileTrivia(d) : d \in {e \in PlainSeeds : Len(e.body.items) <= 1} }
 
 -----------------------------------------------------------------------------
 (* Operations relevant in a state.                                          *)
@@ -89,7 +92,7 @@ RelevantPaths(I) ==
 NewValues == { IntV(7), SetV(FALSE, <<B(<<"k">>, IntV(7))>>), OpqV("[ 1 2 ]") }
 
 Ops(d) ==
-    LET sels == 0..(Len(d.layers) + 1) IN
+    LET sels == 0..(Len(d.layers) + 2) IN
     UNION { LET I == IF HasLayer(d, s) THEN ItemsAt(d, s) ELSE <<>> IN
             { [f |-> "set", sel |-> s, path |-> p, v |-> v] : p \in RelevantPaths(I), v \in NewValues }
               \cup { [f |-> "rm", sel |-> s, path |-> p, v |-> IntV(0)] : p \in RelevantPaths(I) }
